@@ -251,6 +251,88 @@ def oniom_selection_g(chk, recs):
     return n_bad
 
 
+# ---- G+V: selection form x broken links through distribute_atoms; recorded fragment geometries judged by TLC ---------
+def fraggeom_record(rec):
+    """Run one case (selection argument, 0-2 links) through the real ONIOMProblemDecomposition/distribute_atoms with fragments
+    whose SCF build is skipped -> trace record for C15Trace (kind "fraggeom")."""
+    from tangelo.problem_decomposition.oniom.oniom_problem_decomposition import ONIOMProblemDecomposition
+    from tangelo.problem_decomposition.oniom._helpers.helper_classes import Fragment, Link
+
+    class UnbuiltFragment(Fragment):
+        def build(self, integral_solver=None):
+            pass
+
+    na = rec["na"]
+    species = ["C", "N", "O", "F"]
+    geometry = [(species[i], (0.125 * (3 * i * i - 2), 0.5 * (i % 2) - 0.25 * i, 1.0 * i + 0.375 * (i // 2))) for i in range(na)]
+    arg = sel_arg(rec["sel"])
+    links = [Link(l["s"], l["l"], l["f"] / 8.0, "H") for l in rec["links"]]
+    geo = list(geometry)
+    frag = UnbuiltFragment(solver_low="HF", solver_high=(None if arg is None else "CCSD"), selected_atoms=copy.deepcopy(arg),
+                           broken_links=(links or None))
+    other = UnbuiltFragment(solver_low="HF")
+    on = ONIOMProblemDecomposition({"geometry": geo, "fragments": [frag, other]})
+    return {"kind": "fraggeom", "geometry": geom_json(geometry), "geometry_after": geom_json(geo),
+            "frags": [{"sel": rec["sel"], "geom": geom_json(on.fragments[0].geometry),
+                       "links": [{"s": l["s"], "l": l["l"], "f8": l["f"], "sp": "H", "gsize": 1} for l in rec["links"]]},
+                      {"sel": {"kind": "none", "n": 0, "l": []}, "links": [], "geom": geom_json(on.fragments[1].geometry)}]}
+
+
+def fraggeom_key(rec, v):
+    form = rec["sel"]["kind"] + ("-with-links" if rec["links"] else "")
+    return "oniom:distribute_atoms:%s:%s" % (form, v)
+
+
+def oniom_fraggeom(chk, recs):
+    jobs = []
+    for rec in recs:
+        case = {"kind": "fraggeom", "rec": rec}
+        try:
+            j = fraggeom_record(rec)
+        except Exception as e:
+            chk.violation(fraggeom_key(rec, "exception"), "%s: %s (selected_atoms=%r, links=%r)" % (type(e).__name__, e, sel_arg(rec["sel"]), rec["links"]), case)
+            continue
+        j.update(id=len(jobs) + 1, case=case)
+        jobs.append(j)
+    ctl = []
+    for j in [x for x in jobs if x["case"]["rec"]["links"] and x["case"]["rec"]["sel"]["kind"] != "none"][:4]:
+        c = copy.deepcopy(j); c["frags"][0]["geom"] = c["frags"][0]["geom"][:-1]; c["ctl"] = "cap-missing"; ctl.append(c)
+        c = copy.deepcopy(j); c["frags"][0]["links"][0]["f8"] += 1; c["ctl"] = "cap-factor"; ctl.append(c)
+        c = copy.deepcopy(j); c["geometry_after"] = c["geometry_after"] + c["frags"][0]["geom"][-1:]; c["ctl"] = "input-geometry-grown"; ctl.append(c)
+    for x, c in enumerate(ctl):
+        c["base"], c["id"] = c["id"], 10 ** 6 + x
+    verdicts, results = tlc.judge("C15Trace", [{k: v for k, v in j.items() if k not in ("case", "ctl", "base")} for j in jobs + ctl],
+                                  "c15/on_frg", {}, max_parallel=min(MAXPAR, 4))
+    for r in results:
+        chk.add_tlc(r)
+    n_bad = 0
+    for j in jobs:
+        chk.add_traces(1, "V_oniom_fragment_geometries")
+        v = verdicts[j["id"]]
+        if v.startswith("malformed"):
+            raise tlc.TLCError("malformed fragment-geometry record (%s): %s" % (v, j["case"]))
+        if v != "ok":
+            n_bad += 1
+            rec = j["case"]["rec"]
+            chk.violation(fraggeom_key(rec, v), "selected_atoms=%r with links %r on %d atoms: %s" % (sel_arg(rec["sel"]), rec["links"], rec["na"], v), j["case"])
+    control_outcome(chk, "negative_controls_oniom_fragment_geometries", ctl, lambda c: verdicts[c["base"]] == "ok", lambda c: verdicts[c["id"]] == "ok")
+    import collections
+    chk.part("V_oniom_fragment_geometries", failing=n_bad,
+             by_form={"%s/%d links" % k: n for k, n in sorted(collections.Counter((j["case"]["rec"]["sel"]["kind"], len(j["case"]["rec"]["links"])) for j in jobs).items())})
+
+
+def replay_fraggeom(case):
+    try:
+        j = dict(fraggeom_record(case["rec"]), id=1)
+    except Exception as e:
+        print("raised %s: %s" % (type(e).__name__, e))
+        return False
+    verdicts, _ = tlc.judge("C15Trace", [j], "c15/replay", {})
+    print("selected_atoms=%r links=%r -> fragment geometry %s ; other fragment %d atoms; caller's geometry %d atoms; TLC verdict: %s"
+          % (sel_arg(case["rec"]["sel"]), case["rec"]["links"], j["frags"][0]["geom"], len(j["frags"][1]["geom"]), len(j["geometry_after"]), verdicts[1]))
+    return verdicts[1] == "ok"
+
+
 def replay_sel(case):
     c2 = check.Check("C15", ["quick"])
     c2.known = []
@@ -385,6 +467,12 @@ def oniom_runs(chk):
              frags=[F(), F(4, "HF", "FCI", olow=NF, ohigh=B321)]),
         dict(name="H4 model HF/3-21g : CCSD/sto-3g, system HF/3-21g", geometry=H4B, options=True, expect="none",
              frags=[F(low="HF", olow=B321), F([0, 1], "HF", "CCSD", olow=B321, ohigh=NF)]),
+    ]
+    runs += [
+        # one real run per selection form WITH broken links (list form: the BeH2 runs above)
+        dict(name="BeH2 model by COUNT with a link", geometry=BEH2, frags=[F(), F(2, "HF", "FCI", links=[(0, 2, 6, "H")])], expect="none"),
+        dict(name="H4 whole-system fragment (selected_atoms=None) with a link, two levels", geometry=H4B, tag="none-with-links",
+             frags=[F(), F(None, "HF", "CCSD", links=[(1, 2, 4, "H")], charge=1)], expect="none"),
     ]
     B631 = {"basis": "6-31g"}
     runs += [
@@ -574,7 +662,10 @@ def run_oniom(chk, rng):
             dict(module="C15Oniom", cfg=oniom_cfg(3, "Meth2", 1, False, init="InitSel", nxt="NextSel", invs=[]), name="c15/on_sel3"),
             dict(module="C15Oniom", cfg=oniom_cfg(2, "Meth2", 1, False, coords=("CoordsSmall" if quick else "CoordsWide"),
                                                   init="InitLink", nxt="NextLink", invs=["CapOnBond"]), name="c15/on_link", workers=2)]
-    names = ["formal_na3_m1_links_2options", "formal_na2_m2_links", "sel4", "sel3", "link"]
+    for na, fac in ((3, "FactorsTwo"), (4, "FactorsOne")):
+        runs.append(dict(module="C15Oniom", name="c15/on_frg%d" % na,
+                         cfg=oniom_cfg(na, "Meth2", 1, False, init="InitFrag", nxt="NextFrag", invs=["FragCaseOK"]).replace("Factors <- FactorsAll", "Factors <- " + fac)))
+    names = ["formal_na3_m1_links_2options", "formal_na2_m2_links", "sel4", "sel3", "link", "frg3", "frg4"]
     if not quick:
         runs.append(dict(module="C15Oniom", cfg=oniom_cfg(3, "Meth2", 2, False), name="c15/on_formal_c", workers=4))
         names.append("formal_na3_m2")
@@ -592,6 +683,13 @@ def run_oniom(chk, rng):
     if len(sel_recs) < 50 or len(lnk_recs) < 1000:
         raise tlc.TLCError("C15Oniom exported too few cases")
     nb = oniom_selection_g(chk, sel_recs)
+    frg = sorted(res["frg3"].prints("FRG"), key=lambda q: json.dumps(q, sort_keys=True))
+    frg4 = sorted(res["frg4"].prints("FRG"), key=lambda q: json.dumps(q, sort_keys=True))
+    if quick:        # 4 atoms: every whole-system / count case, a seeded sample of the index lists
+        frg4 = [q for q in frg4 if q["sel"]["kind"] != "list" or len(q["links"]) == 0] + rng.sample([q for q in frg4 if q["sel"]["kind"] == "list" and q["links"]], 120)
+    if len(frg) < 150 or len(frg4) < 150:
+        raise tlc.TLCError("C15Oniom exported too few fragment-geometry cases")
+    oniom_fraggeom(chk, frg + frg4)
     group_jobs = []
     nb2 = oniom_relink_g(chk, lnk_recs, rng, group_jobs)
     chk.part("G_oniom", selection_cases=len(sel_recs), relink_cases=len(lnk_recs), failing=nb + nb2)
@@ -620,7 +718,7 @@ def run_oniom(chk, rng):
         try:
             recs, total = oniom_run(run)
         except Exception as e:
-            chk.violation("oniom:simulate:exception:%s" % type(e).__name__, "%s: %s (%s)" % (type(e).__name__, e, run["name"]),
+            chk.violation("oniom:simulate:%s:exception:%s" % (run.get("tag", "run"), type(e).__name__), "%s: %s (%s)" % (type(e).__name__, e, run["name"]),
                           {"kind": "oniom", "run": run})
             continue
         for rec in recs:
@@ -640,7 +738,7 @@ def run_oniom(chk, rng):
         if v.startswith("malformed"):
             raise tlc.TLCError("malformed ONIOM record (%s): %s" % (v, j["run"]["name"]))
         if v != "ok":
-            chk.violation("oniom:simulate:%s:%s" % (j["expect"], v), "%s%s: %s" % (j["run"]["name"], " (second ONIOM object on the same option dicts)" if j.get("round") else "", v),
+            chk.violation("oniom:simulate:%s:%s" % (j["run"].get("tag", j["expect"]), v), "%s%s: %s" % (j["run"]["name"], " (second ONIOM object on the same option dicts)" if j.get("round") else "", v),
                           {"kind": "oniom", "run": j["run"]})
     control_outcome(chk, "negative_controls_oniom", ctl, lambda c: verdicts[c["base"]] == "ok", lambda c: verdicts[c["id"]] == "ok")
     if jobs:
@@ -787,16 +885,34 @@ def dmet_runs(chk):
     return runs
 
 
-def dmet_execute(geom, frag, solver, loc, basis="sto-3g", mu0=0.0):
-    """One real DMET run with every evaluation of the cost function recorded -> (events, recheck, n_electrons, energy)."""
+VOT = {"default": None, "zero": 0., "1e-3": 1e-3}
+MU0 = {"0": 0.0, "2e-3": 2e-3}
+
+
+def dmet_execute(geom, frag, solver, loc, basis="sto-3g", mu0=0.0, vot="default", optimizer="default", verbose=False):
+    """One real DMET run with every evaluation of the cost function recorded
+    -> dict(events, recheck, nelec, energy, dims, norb, optret)."""
+    import contextlib
+    import io
     import warnings as w
     from tangelo.problem_decomposition import DMETProblemDecomposition
     from tangelo.problem_decomposition.dmet import Localization
     mol = dmet_mol(geom, 0, basis)
-    with w.catch_warnings():
+    opts = {"molecule": mol, "fragment_atoms": copy.deepcopy(frag), "fragment_solvers": copy.deepcopy(solver),
+            "electron_localization": getattr(Localization, loc), "initial_chemical_potential": mu0, "verbose": verbose}
+    if VOT[vot] is not None:
+        opts["virtual_orbital_threshold"] = VOT[vot]
+    optret = []
+    if optimizer == "user":
+        def user_optimizer(func, x0):
+            import scipy.optimize
+            r = scipy.optimize.newton(func, x0, tol=1e-6)
+            optret.append(complex(r).real)
+            return r
+        opts["optimizer"] = user_optimizer
+    with w.catch_warnings(), contextlib.redirect_stdout(io.StringIO()):
         w.simplefilter("ignore")
-        dm = DMETProblemDecomposition({"molecule": mol, "fragment_atoms": copy.deepcopy(frag), "fragment_solvers": copy.deepcopy(solver),
-                                       "electron_localization": getattr(Localization, loc), "initial_chemical_potential": mu0})
+        dm = DMETProblemDecomposition(opts)
         dm.build()
         events = []
         inner = dm._oneshot_loop
@@ -814,15 +930,18 @@ def dmet_execute(geom, frag, solver, loc, basis="sto-3g", mu0=0.0):
         # fragment + bath orbitals of every embedding problem (saved by the final evaluation; [] if it did not happen)
         dims = [int(info[4].shape[0]) for info in (getattr(dm, "scf_fragments", None) or [])]
         norb = int(dm.molecule.nao_nr())
-    return events, complex(recheck).real, mol.n_electrons, energy, dims, norb
+    return dict(events=events, recheck=complex(recheck).real, nelec=mol.n_electrons, energy=energy, dims=dims, norb=norb,
+                optret=(optret[-1] if optret else 0.0))
 
 
 def dmet_run(run):
     from tangelo.algorithms import FCISolver
     basis = run.get("basis", "sto-3g")
-    events, recheck, nelec, energy, dims, norb = dmet_execute(run["geom"], run["frag"], run["solver"], run["loc"], basis)
-    rec = {"kind": "dmet", "dims": dims, "norb": norb, "events": events, "recheck": limbs(recheck), "nelec": nelec, "exact": bool(run.get("exact")),
-           "efci": [0, 0], "haspartner": False, "partner": [0, 0], "tolN": 100000, "tolE": 10000}
+    vot, mu0key, optimizer = run.get("vot", "default"), run.get("mu0", "0"), run.get("optimizer", "default")
+    r = dmet_execute(run["geom"], run["frag"], run["solver"], run["loc"], basis, MU0[mu0key], vot, optimizer, bool(run.get("verbose")))
+    rec = {"kind": "dmet", "dims": r["dims"], "norb": r["norb"], "events": r["events"], "recheck": limbs(r["recheck"]), "nelec": r["nelec"],
+           "exact": bool(run.get("exact")), "efci": [0, 0], "haspartner": False, "partner": [0, 0], "tolN": 100000, "tolE": 10000,
+           "vot": vot, "mu0": limbs(MU0[mu0key]), "useropt": optimizer == "user", "optret": limbs(r["optret"])}
     if run.get("exact"):
         mol = dmet_mol(run["geom"], 0, basis)
         key = ("fci", id(mol))
@@ -831,9 +950,40 @@ def dmet_run(run):
         rec["efci"] = limbs(_REF_CACHE[key])
     if run.get("partner"):
         p = run["partner"]
-        _, _, _, e2, _, _ = dmet_execute(p["geom"], p["frag"], run["solver"], run["loc"], basis)
-        rec["haspartner"], rec["partner"] = True, limbs(e2)
-    return rec, energy
+        r2 = dmet_execute(p["geom"], p["frag"], run["solver"], run["loc"], basis)
+        rec["haspartner"], rec["partner"] = True, limbs(r2["energy"])
+    return rec, r["energy"]
+
+
+H4_631 = [("H", (0., 0., 0.)), ("H", (0., 0., 0.75)), ("H", (0., 0., 1.75)), ("H", (0., 0., 2.625))]     # asymmetric chain
+
+
+def dmet_option_runs(chk, rng, configs):
+    """Runs over the documented constructor options (configurations enumerated by TLC, C15Dmet!OptConfigs) on the asymmetric H4
+    chain in 6-31G with fragment_atoms=[2, 2] (2 occupied orbitals < 4 fragment orbitals: the default threshold truncates the
+    bath, threshold 0 must not).  quick: a seeded pairwise-covering subset + every localisation with threshold 0; thorough: all."""
+    configs = sorted(configs, key=lambda c: json.dumps(c, sort_keys=True))
+    keys = ["vot", "loc", "solvers", "optimizer", "mu0", "verbose"]
+    if chk.quick:
+        need = {(a, c[a], b, c[b]) for c in configs for a in keys for b in keys if a < b}
+        pool, chosen = list(configs), []
+        rng.shuffle(pool)
+        must = [c for c in pool if c["vot"] == "zero" and c["solvers"] == "fci"]
+        for loc in ("meta_lowdin", "nao", "iao"):                   # the premise-checked exact-embedding runs
+            chosen.append([c for c in must if c["loc"] == loc][0])
+        for c in chosen:
+            need -= {(a, c[a], b, c[b]) for a in keys for b in keys if a < b}
+        while need:
+            best = max(pool, key=lambda c: len(need & {(a, c[a], b, c[b]) for a in keys for b in keys if a < b}))
+            chosen.append(best)
+            need -= {(a, best[a], b, best[b]) for a in keys for b in keys if a < b}
+        configs = chosen
+    runs = []
+    for c in configs:
+        runs.append(dict(name="H4 6-31G [2,2] options %s" % json.dumps(c, sort_keys=True), geom=H4_631, frag=[2, 2], basis="6-31g",
+                         solver=("fci" if c["solvers"] == "fci" else ["fci", "ccsd"]), loc=c["loc"], vot=c["vot"], mu0=c["mu0"],
+                         optimizer=c["optimizer"], verbose=c["verbose"], exact=(c["solvers"] == "fci"), tag="options"))
+    return runs
 
 
 def dmet_negative_controls(jobs):
@@ -856,8 +1006,16 @@ def run_dmet(chk, rng):
             dict(module="C15Dmet", cfg=dmet_cfg(3, 2, True), name="c15/dm_3i"),
             dict(module="C15Dmet", cfg=dmet_cfg(3, 3, False), name="c15/dm_3"),
             dict(module="C15Dmet", cfg=dmet_cfg(4, 4, False), name="c15/dm_4"),
-            dict(module="C15Dmet", cfg=dmet_cfg(4, 4, False).replace("INIT Init", "INIT InitDerived"), name="c15/dm_4d")]
-    res = tlc.run_many(runs, max_parallel=min(MAXPAR, 5))
+            dict(module="C15Dmet", cfg=dmet_cfg(4, 4, False).replace("INIT Init", "INIT InitDerived"), name="c15/dm_4d"),
+            dict(module="C15Dmet", cfg="CONSTANTS NA = 2\nMaxBlocks = 1\nWithInvalid = FALSE\nINIT InitOpt\nNEXT NextOpt\n", name="c15/dm_opt")]
+    res = tlc.run_many(runs, max_parallel=min(MAXPAR, 6))
+    opt_res = res.pop()
+    if not opt_res.ok:
+        raise tlc.TLCError("C15Dmet option enumeration failed\n%s" % opt_res.out[-1500:])
+    chk.add_tlc(opt_res, "S_dmet_option_configs")
+    opt_configs = opt_res.prints("OPT")
+    if len(opt_configs) != 144:
+        raise tlc.TLCError("C15Dmet exported %d option configurations" % len(opt_configs))
     recs = []
     for r, nm in zip(res, ("na2_all", "na3_invalid", "na3", "na4", "na4_invalid")):
         if not r.ok:
@@ -880,7 +1038,9 @@ def run_dmet(chk, rng):
              invalid=sum(1 for q in recs if not q["valid"]))
     # ---- traces of real runs -------------------------------------------------------------------------------
     jobs = []
-    for run in dmet_runs(chk):
+    opt_runs = dmet_option_runs(chk, rng, opt_configs)
+    chk.part("G_dmet_options", enumerated_by_tlc=len(opt_configs), run=len(opt_runs))
+    for run in dmet_runs(chk) + opt_runs:
         try:
             rec, energy = dmet_run(run)
         except Exception as e:
@@ -941,6 +1101,8 @@ def replay(chk, rec):
         return replay_mi(case)
     if case.get("kind") == "sel":
         return replay_sel(case)
+    if case.get("kind") == "fraggeom":
+        return replay_fraggeom(case)
     if case.get("kind") == "relink":
         return replay_relink(case)
     if case.get("kind") == "relink_group":
